@@ -381,14 +381,26 @@ def check_converge(ck: Check):
                                       conv=m.group(7) == "true", mu0=int(m.group(8)), state=m.group(9))
     n_rej = n_inv = n_mis = n_var = 0
     for (sc, r, p, cands) in items:
+        # the quiet suffix starts at one of the first few probe snapshots after the environment's last action: the
+        # first one from which the run is a run of the model (a request the client abandoned because of an earlier
+        # fault may still be pending at the coordinator at the very first snapshot - the tail of that fault); when
+        # none is, the first one inside the invariant is reported
         chosen = None
         for ci, c in enumerate(cands):
             rs = results.get((sc["id"], ci))
             if rs is None:
                 break
-            if rs["inv"]:
+            if rs["inv"] and rs["all"]:
                 chosen = (ci, c, rs)
                 break
+        if chosen is None:
+            for ci, c in enumerate(cands):
+                rs = results.get((sc["id"], ci))
+                if rs is None:
+                    break
+                if rs["inv"]:
+                    chosen = (ci, c, rs)
+                    break
         if chosen is None:
             if all((sc["id"], ci) in results for ci in range(len(cands))):
                 n_inv += 1
